@@ -26,7 +26,7 @@ import OSq.Model.Front
                                arguments reproduces the statement (coherence of `generator` / `arguments`).
   * `callGate_operands(_partial)`   operands are qubit (or int) entries of the recorded arguments.
   * `gateName_ok`, `gateName_error`   `get_gate_f`: gate set first, then aliases, else `ValueError`.
-  * `mkAxis_error`, `mkBSR_error`     these constructors fail with `ValueError` only.
+  * `mkAxis_error_value`, `mkBSR_error_value`     these constructors fail with `ValueError` only.
   Also: `Toy`, a toy `Scalar` instance (integers, trivial transcendental functions) used only to state *closed*
   non-vacuity examples.
 -/
@@ -772,15 +772,15 @@ theorem gateName_error {lib : GateLib} {n : String} {e : Err} :
 
 /-! ### constructor failures -/
 
-theorem mkAxis_error {v : Vec3 α} {e : Err} (h : mkAxis v = .error e) : e = .value := by
+theorem mkAxis_error_value {v : Vec3 α} {e : Err} (h : mkAxis v = .error e) : e = .value := by
   simp only [mkAxis] at h
   split at h <;> cases h; rfl
 
-theorem mkBSR_error {atol : α} {q : Int} {ax : Vec3 α} {an ph : α} {e : Err}
+theorem mkBSR_error_value {atol : α} {q : Int} {ax : Vec3 α} {an ph : α} {e : Err}
     (h : mkBSR atol q ax an ph = .error e) : e = .value := by
   unfold mkBSR at h
   rcases bind_error.1 h with h | ⟨_, _, h⟩
-  · exact mkAxis_error h
+  · exact mkAxis_error_value h
   · cases h
 
 /-! ### a toy scalar, for closed examples only -/
